@@ -486,6 +486,20 @@ class FunctionReference:
                     partial_args=partial_args,
                     partial_kwargs=partial_kwargs,
                 )
+                if (
+                    memento_fn.cluster_name is not None
+                    and memento_fn.cluster_name != cluster_name
+                ):
+                    # The function is declared in another cluster than the one the name was
+                    # written for (a function without a cluster of its own goes wherever it is
+                    # referred to). Like another version, it is not the function the name refers
+                    # to: what is stored under the name stays reachable through an external
+                    # reference instead of being renamed after the function's present cluster.
+                    raise ValueError(
+                        "Function {} is now in cluster {}".format(
+                            qualified_name, memento_fn.cluster_name
+                        )
+                    )
                 return FunctionReference(
                     memento_fn,
                     cluster_name=cluster_name,
